@@ -12,7 +12,7 @@ DUP_POOL = ["}", "{", "return;", "    pass", "end", "// ---"]
 
 PLAIN_NAMES = ["a.txt", "b.txt", "src/c.rs", "src/d.py", "lib/e.js", "f.md"]
 HAZARD_NAMES = ["with space.txt", "quo'te.txt", "dq\"x.txt", "tab\there.txt", "ünï.txt", "-dash.txt",
-                "sub dir/x y.txt", "日本.txt", "a b/c d/e f.txt", "trailing.dot.", "---", "d/---"]
+                "sub dir/x y.txt", "日本.txt", "a b/c d/e f.txt", "trailing.dot.", "---", "d/---", "caf\u00e9\"q.txt", "\u65e5\u672c \"x\".txt"]
 
 
 class IdGen:
